@@ -36,6 +36,9 @@ def run(ctx):
             d = gen.gen_definition(ctx.rng, n_state=ctx.rng.choice([2, 3]), n_control=nc and ctx.rng.choice([1, 2]),
                                    n_calib=nk and ctx.rng.choice([1, 2]), n_sensors=ctx.rng.choice([1, 2]), depth=2)
             d._kind = "ekf"
+            if nc:
+                # a control multiplied by a state (the control Jacobian depends on the state, and the state moves in the step)
+                d.state_model[d.state[0]] = d.state_model[d.state[0]] + d.control[0] * d.state[-1] * d.dt * 2 + d.control[-1] * d.state[0] * d.dt
             if len(d.state) >= 2:
                 # a reading that is bilinear in two different states (its Jacobian depends on the state although every pure
                 # second derivative vanishes)
